@@ -86,6 +86,11 @@ def holds(c, x):
     return gt(c["g"], bs)
 
 
+def twin_ok(case):
+    # also run under the second label decoding (common.twin_labels); Matrix kinds index by int
+    return C.no_matrix(case)
+
+
 def run_impl(case):
     import qubovert as qv
     H = qv.PCBO()
